@@ -218,6 +218,24 @@ def load_known_part(engine):
         return json.load(f).get("findings", [])
 
 
+# Consequences of a listed finding.  The trace judge computes a violation's cause class from the run's history; the
+# three classes below mean "an event of a listed root finding happened earlier in this run" (a prev_log_index = 0
+# request reset a follower log that held committed entries / a gapped request left a hole in a log / a node lost term
+# and vote in a crash).  After such an event the run's state is corrupted and any safety monitor can fire; which ones do
+# depends on the schedule.  A violation with such a cause is therefore reported as a consequence of the root finding as
+# long as the ROOT is listed with status "known" (when the root is repaired - status "fixed" - its consequences are
+# violations again), only for the properties a consequence is possible for, and never hides a violation whose cause
+# class is anything else.
+CASCADE_ROOTS = {
+    "after-prev0-reset": (("C05", "CommittedStable", "prev0-reset"),
+                          {"C04", "C05", "C06", "C07", "C08", "C09", "C10", "C11", "C29", "C32", "C33"}),
+    "after-gapped-request": (("C08", "GapFree", "gapped-request-appended"),
+                             {"C04", "C05", "C06", "C07", "C08", "C09", "C10", "C11", "C29", "C32", "C33"}),
+    "after-hard-state-loss": (("C02", "TermMonotone", "after-restart"),
+                              {"C01", "C04", "C05", "C06", "C07", "C08", "C09", "C10", "C11", "C12", "C29", "C31", "C32", "C33"}),
+}
+
+
 def classify(prop, violations, known=None):
     """Split violations of `prop` into (known, new). A violation is a dict with at least
     p (property), m (monitor), cause. It is known only if an entry with status=known has the same
@@ -229,8 +247,14 @@ def classify(prop, violations, known=None):
         if v.get("p") != prop:
             continue
         sig = (v["p"], v["m"], v.get("cause", ""))
+        root = CASCADE_ROOTS.get(v.get("cause", ""))
         if sig in sigs:
             kn.append((sigs[sig], v))
+        elif root and root[0] in sigs and prop in root[1]:
+            r = sigs[root[0]]
+            kn.append(({"property": v["p"], "monitor": v["m"], "cause": v["cause"], "status": "known",
+                        "what": "%s fails in a run in which, earlier, %s (consequence of the %s finding %s/%s)"
+                                % (v["m"], r["what"], r["property"], r["monitor"], r["cause"])}, v))
         else:
             new.append(v)
     return kn, new
